@@ -355,6 +355,28 @@ PROPS["C19"] = dict(
     level_note="Trusted: libidn2's idn2_strerror, ASan/LSan, objcopy symbol redirection, shim.",
 )
 
+PROPS["C13"] = dict(
+    level="exploration",
+    default_binary="c13",
+    binaries={"c13": dict(src=["props/c13.cpp"], variants=["dflt"])},
+    stages=[
+        stage("exhaustive"),
+        stage("random", kind="rc", quick=4000, thorough=40000, max_size=100),
+    ],
+    rule="Histories on one eav_t: all operation sequences of length <= 6 (quick) / <= 7 (thorough) over a 12-operation pool {rfc=5321, rfc=6531, "
+         "rfc=7 (invalid), tld_check=0, allow_tld=0, eav_setup, eav_is_email on 4 addresses (accepted IDN, local-part error, IDN error, plain "
+         "accept), eav_errstr, eav_free+eav_init} after an initial eav_setup; random histories of up to 200 operations (mode changes with and "
+         "without eav_setup, invalid rfc values -1/4/7/INT_MAX, tld_check, allow_tld in 0..2047, eav_errstr, eav_free+eav_init) over per-history "
+         "pools of 2-13 addresses from the repository corpus and the C01 generator. Non-trivial = at least two eav_is_email calls with a mode or "
+         "setting change between them; distinct by history hash.",
+    assumptions=["precondition from the manual: eav_is_email only after a successful eav_setup since eav_init; eav_errstr after a failed eav_setup belongs to C15",
+                 "the fresh-object outcome is the specification of 'depends only on current settings and address'"],
+    min_evaluations=dict(quick=1_000_000, thorough=10_000_000),
+    technique="stateful model-based testing: bounded-exhaustive and rapidcheck-generated operation sequences against a settings model and a fresh-object differential, under ASan + LSan",
+    level_text="Exploration of call histories: all short sequences over a pool that alternates outcome kinds are enumerated; long random histories are sampled and shrunk.",
+    level_note="Trusted: the settings model in props/c13.cpp, ASan/LSan, shim.",
+)
+
 
 def stages_for(pid, tier):
     out = []
